@@ -364,6 +364,8 @@ class Evaluator:
 
     def blank(self, tname):
         t = strip_cvref(tname)
+        if t.startswith("std::optional<"):
+            return ("opt", False, None)
         if t in self.F.records:
             fs = self.record_fields(t)
             return Obj(t, {n: self.blank(ft) for n, ft in fs})
@@ -1274,6 +1276,17 @@ class Evaluator:
                 return self._invoke(self.F.fn(target[1]), None, list(args))
             raise Inconclusive("call of a std::function with unknown target")
         # ---- optional
+        if ptype.startswith("std::optional<") and sn == "operator=":
+            v = val(0)
+            if v == ("nullopt",):
+                v = ("opt", False, None)
+            elif not (isinstance(v, tuple) and v and v[0] == "opt"):
+                v = ("opt", True, v)
+            self.save(this_lv, v)
+            return this_lv
+        if ptype.startswith("std::optional<") and sn in ("reset",):
+            self.save(this_lv, ("opt", False, None))
+            return None
         if ptype.startswith("std::optional<"):
             o = self.load(this_lv)
             if sn in ("has_value", "operator bool"):
